@@ -400,4 +400,24 @@ example :
     (answersOf cfg [] [] [a1, b1, b1, a2]).map (·.status) = [200, 200, 429, 429] ∧
     (answersOf cfg [] [] [a1, a2]).map (·.status) = [200, 429] := by decide
 
+/-! ### `ratelimit.New`: the configuration is always positive -/
+
+theorem lemma_fold_positive (opts : List Int) (c : Int) (hc : 1 ≤ c) : 1 ≤ opts.foldl applyPositive c := by
+  induction opts generalizing c with
+  | nil => exact hc
+  | cons o rest ih =>
+    simp only [List.foldl_cons]
+    apply ih
+    unfold applyPositive
+    split <;> omega
+
+/-- **whatever options `New` is given** (none, several, zero or negative values), the bucket is built with
+    rate ≥ 1 and burst ≥ 1 — the hypotheses of `retry_after_truthful` / `bucket_meets_spec` hold for every limiter
+    `New` can return -/
+theorem new_config_positive (rateOpts burstOpts : List Int) :
+    1 ≤ (newConfig rateOpts burstOpts).1 ∧ 1 ≤ (newConfig rateOpts burstOpts).2 :=
+  ⟨lemma_fold_positive rateOpts 100 (by omega), lemma_fold_positive burstOpts 20 (by omega)⟩
+
+example : newConfig [] [] = (100, 20) ∧ newConfig [50, 0, -3] [10, -1] = (50, 10) ∧ newConfig [0] [7, 9] = (100, 9) := by decide
+
 end Rivaas.C16
